@@ -98,6 +98,17 @@ impl Future for YieldOnce {
     }
 }
 
+/// the error object the harness's functions fail with: "carrying the original error" means this very object can be
+/// taken out of the reported error again
+#[derive(Debug)]
+pub struct HarnessFailure(pub String);
+impl std::fmt::Display for HarnessFailure {
+    fn fmt(&self, f: &mut std::fmt::Formatter<'_>) -> std::fmt::Result {
+        f.write_str(&self.0)
+    }
+}
+impl std::error::Error for HarnessFailure {}
+
 pub struct HFn {
     pub name: &'static str,
     pub spec: FnSpec,
@@ -118,10 +129,10 @@ impl UserFunction for HFn {
         };
         let key = enc_value(&params);
         if matches!(self.spec.kind, FnKind::Fail) {
-            return Err(anyhow::anyhow!("fail"));
+            return Err(anyhow::Error::new(HarnessFailure("fail".to_string())));
         }
         if self.spec.fail_idx.contains(&idx) || self.spec.fail_args.iter().any(|a| enc_value(a) == key) {
-            return Err(anyhow::anyhow!("fail{}", idx));
+            return Err(anyhow::Error::new(HarnessFailure(format!("fail{}", idx))));
         }
         Ok(match &self.spec.kind {
             FnKind::Id => params,
